@@ -50,4 +50,37 @@ def addressed (F : TFacts) (a : J) : Option (List Iri) :=
 /-- first occurrences of `rs`, without the `ignored` ones -/
 def dedupeSpec (rs ignored : List Iri) : List Iri := dedupeIRIs rs ignored
 
+
+/-- the inbox an actor document names -/
+def inboxOf (F : TFacts) (t : J) : Option Iri :=
+  if !has F t "inbox" then none
+  else match t.get? "inbox" with
+    | none => none
+    | some j => (match toId F (elemOf F j) with
+      | .ok i => some i
+      | .error _ => none)
+
+/-- the inboxes of a list of actor documents (`none`: one of them names none) -/
+def inboxesOf (F : TFacts) : List J → Option (List Iri)
+  | [] => some []
+  | t :: ts => (match inboxOf F t, inboxesOf F ts with
+    | some i, some is => some (i :: is)
+    | _, _ => none)
+
+/-- **who receives a federated activity** (the statement of C02): the application's stored inbox of every addressed,
+non-Public id that has one, then the inboxes of the actor documents reachable from the other addressed ids within `md`
+levels of the federation graph `G`, without duplicates and without the sender's own inbox.  `none`: the delivery fails
+(an addressed element has no id, or a reachable actor document or the sender's names no inbox). -/
+def recipientsSpec (F : TFacts) (G : Iri → E Doc) (stored : Iri → Option Iri) (md : Nat) (me : J) (a : J) : Option (List Iri) :=
+  match addressed F a with
+  | none => none
+  | some r0 =>
+    let r := filterPublic r0
+    let foundInboxes := r.filterMap stored
+    let foundActors := r.filter fun u => (stored u).isSome
+    let rest := foundActors.foldl removeOne r
+    match inboxesOf F (reachActors F G md rest), inboxOf F me with
+    | some remote, some mine => some (dedupeIRIs (foundInboxes ++ remote) [mine])
+    | _, _ => none
+
 end AV.Spec.C02
